@@ -1,0 +1,9 @@
+//go:build !verif
+
+package parser
+
+// verifState is empty unless the parser is built with the "verif" tag.
+type verifState struct{}
+
+// verifTick is a no-op unless the parser is built with the "verif" tag.
+func (p *Parser) verifTick() {}
